@@ -59,7 +59,8 @@ package boltz
 //@   errflow
 //@   nosafety
 //@   waive immutable two-step construction: the final state is loaded once, right after the write, before the state is handed to anything
-//@   modifies *, self.FinalState
+//@   modifies *, self.FinalState, ecsLoaded[self]
+//@   ensures[final-state-reloaded] result == nil ==> ecsLoaded[self]
 
 //@ func (*LinkedSetSymbol).AddCompoundLink
 //@   props C07
